@@ -76,6 +76,28 @@ CHECKS = {
              'eval that distinct names share no mutable object and that host objects only change by direct mutation.',
         note='trusted: identity-disjointness of lists/dicts (through tuples) is equivalent to isolation of mutations for plain data',
         design='4/C12'),
+    'C13': dict(
+        engine='E4',
+        technique='exhaustive product: every non-mutator builtin found in FUNCTIONS x every argument tuple (arity 1-3) over a shape '
+                  'alphabet, direct call and through eval in three syntaxes and mutator-on-result pipelines; deep before/after snapshot',
+        text='Every non-mutating builtin (the table is read at run time, so a new builtin is included) is applied to every argument '
+             'tuple of arity 1-3 over 17 value shapes and 5 lambdas, directly and through eval as f(a,..), a.f(..), a | f(..), and in '
+             'pipelines that mutate the result of container-building builtins; a deep snapshot (contents + identity structure) of '
+             'all arguments must be unchanged, and container builders must not return their argument. Complete within the product.',
+        note='trusted: the snapshot function; the mutator list is the one in the property statement',
+        design='4/C13'),
+    'C03': dict(
+        engine='E3',
+        technique='explicit-state BFS over histories of growth-relevant statements from host containers of lengths around the cap, '
+                  'states deduplicated on the (type, length) tree; length invariant on every node evaluation via an external tracer',
+        text='From host list/dict/string of each length in {0,1,9998,9999,10000,10001}, every history up to depth 2/3 over ~450 '
+             'statements (all operator / compound / index forms and every builtin x argument template that a dry run shows to return '
+             'or mutate a container or string) is executed; every list/dict produced by any node evaluation or reachable afterwards must '
+             'respect max(10000, longest host/literal length), and element-adding operations at the cap must raise ParserError and '
+             'change nothing. Complete within the bounds; known findings listed in known_findings.json.',
+        note='trusted: uniform contents abstraction (no length-changing path depends on element values); long containers are sampled '
+             'at both ends when walking for nested containers',
+        design='4/C03'),
 }
 
 NOT_YET = {}
